@@ -172,10 +172,21 @@ pub fn bytes(value: Arc<String>) -> Result<Value> {
 // Performs a type conversion on the target.
 pub fn double(ftx: &FunctionContext, This(this): This<Value>) -> Result<Value> {
     Ok(match this {
-        Value::String(v) => v
-            .parse::<f64>()
-            .map(Value::Float)
-            .map_err(|e| ftx.error(format!("string parse error: {e}")))?,
+        Value::String(v) => {
+            let parsed = v
+                .parse::<f64>()
+                .map_err(|e| ftx.error(format!("string parse error: {e}")))?;
+            // `str::parse` saturates: "1e400" parses to infinity. Only the spellings
+            // of infinity itself may convert to it.
+            let spelled = v.trim_start_matches(['+', '-']);
+            if parsed.is_infinite()
+                && !spelled.eq_ignore_ascii_case("inf")
+                && !spelled.eq_ignore_ascii_case("infinity")
+            {
+                return Err(ftx.error("string parse error: number too large to fit in target type"));
+            }
+            Value::Float(parsed)
+        }
         Value::Float(v) => Value::Float(v),
         Value::Int(v) => Value::Float(v as f64),
         Value::UInt(v) => Value::Float(v as f64),
